@@ -104,6 +104,68 @@ pub fn run_c04(tier: &str) -> Report {
     let vs: Vec<Viol> = special.par_iter().flat_map(|&c| check_area(c, 32, &worst)).collect();
     rep.sink.extend(vs);
     evals += special.len() as u64;
+    // fine cells cut by the natural break lines of the coordinate functions (octant boundaries of the
+    // azimuth and of the polar angle in the library's rotated frame, i.e. meridians lon = -93 + 45 k and the
+    // parallels of authalic latitude 0 and +-45 deg; rays at multiples of 45 deg around face centres):
+    // a series or table that changes branch there moves boundary points by ~1e-11 rad, which only the
+    // area of a cell of resolution >= 24 straddling the line can show
+    let mut line_cells: Vec<u64> = Vec::new();
+    {
+        let fine_res: &[i32] = if tier == "quick" { &[24, 27, 29] } else { &[20, 22, 24, 25, 26, 27, 28, 29] };
+        let mut pts: Vec<(f64, f64)> = Vec::new();
+        for k in 0..8 {
+            let lon = -93.0 + 45.0 * k as f64;
+            for lat in [-80.0, -61.0, -40.5, -20.25, 0.0, 19.75, 41.0, 59.5, 79.0] {
+                pts.push((lon, lat));
+            }
+        }
+        for k in 0..16 {
+            let lon = -180.0 + 22.5 * k as f64 + 3.3;
+            for alat in [0.0, 45.0, -45.0] {
+                // geodetic latitude whose authalic latitude is alat (reference inverse by bisection)
+                let (mut lo, mut hi) = (-90.0f64, 90.0f64);
+                for _ in 0..60 {
+                    let mid = 0.5 * (lo + hi);
+                    if rg::authalic_lat(mid * rg::DEG) / rg::DEG < alat {
+                        lo = mid;
+                    } else {
+                        hi = mid;
+                    }
+                }
+                pts.push((lon, 0.5 * (lo + hi)));
+            }
+        }
+        let f = rg::frame();
+        for face in [0usize, 3, 8] {
+            let c = f.centres[face];
+            let v0 = f.vertices.iter().copied().filter(|v| rg::ang(*v, c) < 0.7).next().unwrap();
+            let e1 = rg::unit(rg::sub(v0, rg::scale(c, rg::dot(v0, c))));
+            let e2 = rg::cross(c, e1);
+            for k in 0..8 {
+                let a = k as f64 * rg::PI / 4.0;
+                for d in [0.2f64, 0.45] {
+                    let dir = rg::add(rg::scale(e1, a.cos()), rg::scale(e2, a.sin()));
+                    let p = rg::unit(rg::add(rg::scale(c, d.cos()), rg::scale(dir, d.sin())));
+                    pts.push(rg::vec_to_ll(p));
+                }
+            }
+        }
+        for (lon, lat) in pts {
+            for &r in fine_res {
+                if let Ok(c) = subj::lookup(lon, lat, r) {
+                    if rc::resolution(c) == Some(r) {
+                        line_cells.push(c);
+                    }
+                }
+            }
+        }
+        line_cells.sort_unstable();
+        line_cells.dedup();
+    }
+    let vs: Vec<Viol> = line_cells.par_iter().flat_map(|&c| check_area(c, 32, &worst)).collect();
+    rep.sink.extend(vs);
+    evals += line_cells.len() as u64;
+    rep.set("fine_cells_on_break_lines_of_coordinate_functions", json!(line_cells.len()));
     // metadata
     let world = a5::cell_area(-1);
     let auth = rg::authalic_area_m2();
